@@ -7,7 +7,7 @@ rsync -a --exclude .git --exclude /dirk /repo/ $D/repo/
 export GOFLAGS=-mod=mod GOPROXY=off GOSUMDB=off GOTOOLCHAIN=local; unset GOWORK
 ( cd $D/repo && go build ./... ) || { echo "BUILD FAILED"; rm -rf $D; exit 2; }
 mkdir -p $D/ev
-/verif/bin/dirkcheck -property all -repo $D/repo -out $D/ev -known /dev/null -tier quick | grep -v " 0 violated, 0 undecided"
+/verif/bin/dirkcheck -property all -repo $D/repo -out $D/ev -known /dev/null -tier quick | grep " quick: " | grep -v " 0 violated, 0 undecided"
 python3 - $D/ev <<'PY'
 import json,glob,sys,os
 for f in sorted(glob.glob(os.path.join(sys.argv[1],'replay','*.json'))):
